@@ -46,6 +46,7 @@ def check_receiver(r, peer_payload, acc):
     own_decodable = R.dec_strict(own) is not None
     cases = [(bytes([v]), "valid", peer_payload) for v in range(256)] + [(bytes([v]), "own", own) for v in range(256)]
     cases += [(b"", "valid", peer_payload), (b"", "own", own), (b"", "empty", b"")]
+    T.clock.advance(3600)          # an hour passes between start()/restore and the arrival of any message
     for lab, pk, payload in cases:
         delivered = lab + payload
         got = T.observe(r.fresh().finish, delivered)
@@ -129,13 +130,13 @@ def _default_path(acc):
             continue
         import copy
         for lab, want in ((side.encode(), "ReflectionThwarted" if side == "S" else "OffSides"), (b"Z", None), (b"", None)):
-            got = T.observe(copy.copy(s).finish, lab + m[1][1:])
+            got = T.observe(T.snapshot(s).finish, lab + m[1][1:])
             acc.n(evaluations=1, transitions=1)
             if got[0] == "ok" or (want and got != ("exc", want)):
                 acc.violation("C06/default-path/%s" % side, {"what": "default-parameter session accepts / mis-reports a mislabelled message",
                               "replay": {"default_path": True}, "expected": want or "any exception", "observed": got if got[0] != "ok" else ("ok", "key")})
         if side != "S":
-            got = T.observe(copy.copy(s).finish, C.PEER[side].encode() + m[1][1:])
+            got = T.observe(T.snapshot(s).finish, C.PEER[side].encode() + m[1][1:])
             acc.n(evaluations=1, transitions=1)
             if got != ("exc", "ReflectionThwarted"):
                 acc.violation("C06/default-path/%s" % side, {"what": "default-parameter session does not refuse its own element under the peer's label",
@@ -170,6 +171,14 @@ def run(tier, seed):
     tasks.sort(key=lambda t: -(T.get(t[1][0]).ref.esize * (50 if t[0] == "shipped" else T.get(t[1][0]).q)))
     core.pmerge(_dispatch, tasks, acc)
     _default_path(acc)
+    # a session left half-open while many others run must still refuse its own reflected message (long history, one process)
+    from .c16 import _soak_task
+    d = core.pmerge(_soak_task, [("T23", 3000)] if quick else [("Params1024", 3500), ("T23", 50000), ("T509", 20000)])
+    for k, v in d.viol.items():
+        if "half-open" in k:
+            for r in v["records"]:
+                acc.violation("C06/soak/reflection-accepted-after-long-history", r)
+    acc.n(evaluations=d.c.get("transitions", 0))
     return acc
 
 
